@@ -469,9 +469,15 @@ struct message_t
     std::vector<char> strbuf;
 };
 
+// @param scanned ports without a line whose dependencies were already followed
+//                for @p orig_portname (they can refer to each other in circles)
 void scan_deps(const std::string& orig_portname, std::string cur_portname,
-               const Ports& ports, const std::map<std::string, message_t*>& message_map, const std::vector<message_t>& message_v)
+               const Ports& ports, const std::map<std::string, message_t*>& message_map, const std::vector<message_t>& message_v,
+               std::set<std::string>& scanned)
 {
+    if(!scanned.insert(cur_portname).second)
+        return;
+
     auto rel2abs=[](const char* relative_path, const std::string& base) -> std::string
     {
         std::string abs = base;
@@ -504,7 +510,7 @@ void scan_deps(const std::string& orig_portname, std::string cur_portname,
             if(itr != message_map.end())
                 itr->second->dependees.push_back(std::distance(message_v.data(),(const message_t*)message_map.at(orig_portname)));
             else
-                scan_deps(orig_portname, abs, ports, message_map, message_v);
+                scan_deps(orig_portname, abs, ports, message_map, message_v, scanned);
         }
     };
     bool is_leaf_level = true;
@@ -542,7 +548,7 @@ void scan_deps(const std::string& orig_portname, std::string cur_portname,
                     {
                         //printf("dependencies: %s depends on port %s which has no message\n", orig_portname.c_str(), enabled_by);
                         // port is not in the savefile => scan transitive deps
-                        scan_deps(orig_portname, abs, ports, message_map, message_v);
+                        scan_deps(orig_portname, abs, ports, message_map, message_v, scanned);
                     }
                 }
             }
@@ -618,7 +624,8 @@ int dispatch_printed_messages(const char* messages,
     {
         std::string portname = pr.first;
         assert(portname[0] == '/');
-        scan_deps(portname, portname, ports, message_map, message_v);
+        std::set<std::string> scanned; // per line: the edges belong to it
+        scan_deps(portname, portname, ports, message_map, message_v, scanned);
     }
 
     // topologic sort
